@@ -114,3 +114,107 @@ func TestWireInterleavedSizeSweep(t *testing.T) {
 		evid.Sample("size-sweep", map[string]any{"transport": transport, "sizes": fmt.Sprintf("%d sizes in ranges 13-80, 180-200, 1380-1520, 2040-2056, 4088-4104, 8184-8200, 16376-16392, 32760-32776, 65500-65535", len(want))})
 	}
 }
+
+// The same sizes beside a UDP player: packets that do not fit a datagram
+// (payload above 65507 bytes) cannot be delivered to it — but that concerns the
+// one packet, not the player: it must stay attached and receive every packet
+// that does fit, before and after the oversized ones, in order, while a TCP
+// player of the same stream receives everything. ("What one consumer receives
+// never depends on … other consumers"; an undeliverable datagram is not a reason
+// to detach a consumer.)
+func TestWireSizesBesideUDPPlayer(t *testing.T) {
+	s := wireStart()
+	path := "/c01/sizes/udp"
+	st := srv.PublishStream(path, mediah.SDP(esgen.H264, false))
+	defer srv.Unpublish(st)
+	u := &wclient{pl: wclientPlan{Kind: "udp", DetachAt: -1, Chans: [4]int{0, 1, 2, 3}}}
+	if err := u.attach(s, path); err != nil {
+		t.Fatalf("udp attach: %v (machinery)", err)
+	}
+	defer u.leave(s, path, false)
+	tc := &wclient{pl: wclientPlan{Kind: "tcp", DetachAt: -1, Chans: [4]int{0, 1, 2, 3}}}
+	if err := tc.attach(s, path); err != nil {
+		t.Fatalf("tcp attach: %v (machinery)", err)
+	}
+	defer tc.leave(s, path, false)
+	if !srv.WaitFor(5*time.Second, func() bool { return srv.Consumers(path) == 2 }) {
+		t.Fatalf("players never registered (machinery)")
+	}
+	seq := uint16(1)
+	mk := func(total int, tag uint32) []byte {
+		payload := make([]byte, total-12)
+		payload[0] = 0x41
+		for i := 1; i < len(payload); i++ {
+			payload[i] = byte(i*5) ^ byte(tag) ^ byte(i>>8)
+		}
+		binary.BigEndian.PutUint32(payload[1:], tag)
+		raw := rtppack.Pkt{PT: 96, Seq: seq, TS: 90000 + uint32(seq)*3000, SSRC: 78, Marker: true, Payload: payload}.Marshal()
+		seq++
+		return raw
+	}
+	// small, then sizes around the datagram limit (65507 bytes of UDP payload), small again, …
+	var sizes []int
+	for _, big := range []int{65000, 65506, 65507, 65508, 65520, 65535, 65400} {
+		sizes = append(sizes, 200, big, 300, 1400)
+	}
+	var want, wantUDP [][]byte
+	for i, n := range sizes {
+		raw := mk(n, uint32(i+1))
+		want = append(want, raw)
+		if n <= 65507 {
+			wantUDP = append(wantUDP, raw)
+		}
+		st.WriteRtpPacket(rtppack.ToIpchub(rtp.ChannelVideo, raw))
+		// loopback UDP: do not outrun the receiver's socket buffer (a datagram dropped by
+		// the kernel on OUR side would look like a loss) - drain after every packet
+		time.Sleep(2 * time.Millisecond)
+		u.poll()
+		tc.poll()
+	}
+	sentinel := mk(64, 0xFEEDFACE)
+	st.WriteRtpPacket(rtppack.ToIpchub(rtp.ChannelVideo, sentinel))
+	has := func(c *wclient, raw []byte) bool {
+		for _, it := range c.items {
+			if bytes.Equal(it.Data, raw) {
+				return true
+			}
+		}
+		return false
+	}
+	filler := 0
+	deadline := time.Now().Add(30 * time.Second)
+	for !(has(u, sentinel) && has(tc, sentinel)) && time.Now().Before(deadline) && !u.isEnded() {
+		u.poll()
+		tc.poll()
+		filler++
+		st.WriteRtpPacket(rtppack.ToIpchub(rtp.ChannelVideo, mk(20, 0xF1000000+uint32(filler)))) // TCP is flushed lazily
+		time.Sleep(5 * time.Millisecond)
+	}
+	u.poll()
+	tc.poll()
+	evid.Eval(1)
+	desc := map[string]any{"sizes": sizes, "udp_items": len(u.items), "tcp_items": len(tc.items), "udp_ended": fmt.Sprint(u.endedErr())}
+	if srv.Consumers(path) != 2 {
+		evid.Violation(t, "wire-udp-oversize", desc, "after packets that do not fit a datagram were published the stream has %d consumers (it had a UDP and a TCP player): an undeliverable datagram detached a player", srv.Consumers(path))
+	}
+	idx := 0
+	for _, it := range u.items {
+		if idx < len(wantUDP) && bytes.Equal(it.Data, wantUDP[idx]) {
+			idx++
+		}
+	}
+	if idx != len(wantUDP) || !has(u, sentinel) {
+		evid.Violation(t, "wire-udp-oversize", desc, "the UDP player received %d of the %d packets that fit a datagram (in order) and the sentinel: %v; connection: %v", idx, len(wantUDP), has(u, sentinel), u.endedErr())
+	}
+	idx = 0
+	for _, it := range tc.items {
+		if idx < len(want) && bytes.Equal(it.Data, want[idx]) {
+			idx++
+		}
+	}
+	if idx != len(want) {
+		evid.Violation(t, "wire-udp-oversize", desc, "the TCP player beside the UDP player received %d of %d packets in order", idx, len(want))
+	}
+	evid.Class("sizes around the datagram limit beside a UDP player")
+	evid.NontrivialN(int64(len(want)))
+}
